@@ -1,16 +1,25 @@
 import FcpptModel.Prelude.Proto
 import FcpptModel.Model.C03.Shapes
 /-!
-Driver for C03.  Operations (one per line); an argument token `~` stands for the empty string:
+Driver for C03.  Operations (one per line); an argument token `~` stands for the empty string.
+`<shape>` is a shape number of `Shapes.lean`, optionally followed by `@` and a comma-separated list of option names
+(`--long` / `-short`): the explicit `parse_context` the parser's own `parse` member is called with (default: the parser's
+own `option_names()`).
 
-* `run <shape> <tok>*`   — construct shape number `<shape>` of `Shapes.lean`, parse the argument vector.
+* `run <shape> <tok>*`   — construct the shape, parse the argument vector.
      result  `exc:duplicate-names` | `exc:options`                        (constructor threw)
              `diverge`                                                     (fuel exhausted)
-             `P=<ok REC|error> R=<ok REC rest=TOKS|missing|other>`         (`parse` / the parser's own `parse` member)
+             `P=<ok REC|error> R=<ok REC rest=TOKS|missing rest=TOKS|other>`   (`options::parse` / the parser's own `parse` member;
+                                                                            `missing` shows the state the `missing_error` carries)
              `H=<help|ok REC|error> R=…`                                   (shapes run through `parse_help`)
 * `hang <shape> <tok>*`  — the same (the harness runs it under a short watchdog)
 * `ex <shape> <n> <k> <alphabet: k tokens> <prefix tokens>*` — FNV digest over the `run` lines of all argument
      vectors of length `n` over the alphabet that start with the prefix (last position varies fastest)
+* `perm <shape> <tok>*`  — digest over the `run` lines of all orders of the tokens (every remaining token in turn as the next one)
+* `weave <shape> <e> <e tokens> <base tokens>*` — digest over all merges of the two vectors that keep both orders
+     (woven-in token first)
+* `info <shape>` — `flag_names()` / `option_names()` of every parser object the harness constructs, in construction order,
+     and the name of every `sub_command` (`F=… O=… | … | C=name | …`)
 -/
 namespace Fcppt.C03.Drv
 open Fcppt.Proto
@@ -47,14 +56,35 @@ def excName : ExcKind → String
   | .optionsException => "exc:options"
   | _ => "exc:other"
 
-def rawPart (f : Nat) (p : OP) (args : List String) : String :=
-  match parse f p (index args) p.optionNames with
+/-- `std::set<flag_name>` / `std::set<option_name>`: sorted, no duplicates; an option name is ordered by (name, is_short) -/
+def optLt (a b : String × Bool) : Bool := a.1 < b.1 || (a.1 == b.1 && (!a.2 && b.2))
+
+def insertSet {α : Type} [BEq α] (lt : α → α → Bool) (x : α) : List α → List α
+  | [] => [x]
+  | y :: r => if x == y then y :: r else if lt x y then x :: y :: r else y :: insertSet lt x r
+
+def toSet {α : Type} [BEq α] (lt : α → α → Bool) (l : List α) : List α := l.foldr (insertSet lt) []
+
+def showFlagNames (l : List String) : String :=
+  let s := toSet (fun a b => decide (a < b)) l
+  if s.isEmpty then "-" else ",".intercalate (s.map encodeTok)
+
+def showOptionNames (l : Ctx) : String :=
+  let s := toSet optLt l
+  if s.isEmpty then "-" else ",".intercalate (s.map fun (n, sh) => encodeTok n ++ (if sh then ":s" else ":l"))
+
+def nodeLine : Node → String
+  | .parser p => s!"F={showFlagNames p.flagNames} O={showOptionNames p.optionNames}"
+  | .sub n => s!"C={encodeTok n}"
+
+def rawPart (f : Nat) (p : OP) (args : List String) (ctx : Option Ctx) : String :=
+  match parse f p (index args) (ctx.getD p.optionNames) with
   | .ok (st, r, _) => s!"ok {showRec r} rest={showToks st}"
-  | .error (.missing _) => "missing"
+  | .error (.missing st) => s!"missing rest={showToks st}"
   | .error .other => "other"
   | .error .diverge => "diverge"
 
-def runLine (s : Shape) (args : List String) : String :=
+def runLine (s : Shape) (ctx : Option Ctx) (args : List String) : String :=
   match construct s.op with
   | .error k => excName k
   | .ok () =>
@@ -63,42 +93,109 @@ def runLine (s : Shape) (args : List String) : String :=
       let f := fuelFor s.op args.length
       match parseTop f s.op args with
       | .error .diverge => "diverge"
-      | .error .error => s!"P=error R={rawPart f s.op args}"
-      | .ok (r, _) => s!"P=ok {showRec r} R={rawPart f s.op args}"
+      | .error .error => s!"P=error R={rawPart f s.op args ctx}"
+      | .ok (r, _) => s!"P=ok {showRec r} R={rawPart f s.op args ctx}"
     | some (hsh, hlg) =>
       let f := fuelFor (helpSum hsh hlg s.op) args.length
       match parseHelp f hsh hlg s.op args with
       | .error .diverge => "diverge"
-      | .error .error => s!"H=error R={rawPart f s.op args}"
-      | .ok .help => s!"H=help R={rawPart f s.op args}"
-      | .ok (.result r _) => s!"H=ok {showRec r} R={rawPart f s.op args}"
+      | .error .error => s!"H=error R={rawPart f s.op args ctx}"
+      | .ok .help => s!"H=help R={rawPart f s.op args ctx}"
+      | .ok (.result r _) => s!"H=ok {showRec r} R={rawPart f s.op args ctx}"
+
+def infoLine (s : Shape) : String :=
+  match construct s.op with
+  | .error k => excName k
+  | .ok () =>
+    let hs := match s.help with
+      | none => []
+      | some (hsh, hlg) => [Node.parser (.unitSwitch "h" hsh hlg)]
+    " | ".intercalate ((s.nodes ++ hs).map nodeLine)
 
 /-- all vectors of length `n` over `alpha` (last position fastest), each appended to `pre` -/
-def digestAll (s : Shape) (alpha : List String) : Nat → List String → UInt64 → UInt64
-  | 0, pre, h => fnv h (runLine s pre.reverse)
-  | n + 1, pre, h => alpha.foldl (fun h t => digestAll s alpha n (t :: pre) h) h
+def digestAll (line : List String → String) (alpha : List String) : Nat → List String → UInt64 → UInt64
+  | 0, pre, h => fnv h (line pre.reverse)
+  | n + 1, pre, h => alpha.foldl (fun h t => digestAll line alpha n (t :: pre) h) h
 
-def getShape (sid : String) : Option Shape :=
-  match sid.toNat? with
-  | some i => shapes[i]?
-  | none => none
+/-- `l` without its `i`-th element -/
+def without (l : List String) (i : Nat) : List String := l.take i ++ l.drop (i + 1)
+
+/-- every remaining token in turn as the next element (fuel = number of remaining tokens) -/
+def digestPerm (line : List String → String) : Nat → List String → List String → UInt64 → UInt64
+  | 0, pre, _, h => fnv h (line pre.reverse)
+  | n + 1, pre, rest, h =>
+    (List.range rest.length).foldl (fun h i => digestPerm line n (rest[i]! :: pre) (without rest i) h) h
+
+/-- all merges of `e` (first) and `b` that keep both orders -/
+def digestWeave (line : List String → String) : Nat → List String → List String → List String → UInt64 → UInt64
+  | 0, pre, _, _, h => fnv h (line pre.reverse)
+  | _ + 1, pre, [], [], h => fnv h (line pre.reverse)
+  | n + 1, pre, e, b, h =>
+    let h1 := match e with
+      | [] => h
+      | x :: e' => digestWeave line n (x :: pre) e' b h
+    match b with
+    | [] => h1
+    | y :: b' => digestWeave line n (y :: pre) e b' h1
+
+/-- `--long` / `-short` -/
+def ctxName (s : String) : Option (String × Bool) :=
+  match s.toList with
+  | '-' :: '-' :: r => some (String.ofList r, false)
+  | '-' :: r => some (String.ofList r, true)
+  | _ => none
+
+def isDigits (s : String) : Bool := !s.isEmpty && s.toList.all fun c => '0' ≤ c && c ≤ '9'
+
+/-- `<id>` | `<id>@` | `<id>@--long,-short,…` -/
+def getShape (tok : String) : Option (Shape × Option Ctx) :=
+  match tok.splitOn "@" with
+  | [sid] => if isDigits sid then (shapes[sid.toNat!]?).map fun s => (s, none) else none
+  | [sid, names] =>
+    if !isDigits sid then none else
+    match shapes[sid.toNat!]? with
+    | none => none
+    | some s =>
+      if names = "" then some (s, some [])
+      else ((names.splitOn ",").mapM ctxName).map fun c => (s, some c)
+  | _ => none
+
+def guarded (s : Shape) (k : Unit → String) : String :=
+  match construct s.op with
+  | .error e => excName e      -- the constructor throws before anything is enumerated
+  | .ok () => k ()
 
 def handle (toks : List String) : String :=
   match toks with
   | "run" :: sid :: args | "hang" :: sid :: args =>
     match getShape sid with
-    | some s => runLine s (args.map decodeTok)
+    | some (s, c) => runLine s c (args.map decodeTok)
     | none => "bad-op"
+  | ["info", sid] =>
+    match getShape sid with
+    | some (s, _) => infoLine s
+    | none => "bad-op"
+  | "perm" :: sid :: args =>
+    match getShape sid with
+    | some (s, c) =>
+      if args.length > 8 then "bad-op"
+      else guarded s fun _ => "D " ++ hex64 (digestPerm (runLine s c) args.length [] (args.map decodeTok) fnvInit)
+    | none => "bad-op"
+  | "weave" :: sid :: e :: rest =>
+    match getShape sid, e.toNat? with
+    | some (s, c), some e =>
+      if rest.length < e then "bad-op"
+      else guarded s fun _ =>
+        "D " ++ hex64 (digestWeave (runLine s c) rest.length [] ((rest.take e).map decodeTok) ((rest.drop e).map decodeTok) fnvInit)
+    | _, _ => "bad-op"
   | "ex" :: sid :: n :: k :: rest =>
     match getShape sid, n.toNat?, k.toNat? with
-    | some s, some n, some k =>
+    | some (s, c), some n, some k =>
       if k = 0 ∨ rest.length < k then "bad-op" else
       let alpha := (rest.take k).map decodeTok
       let pre := (rest.drop k).map decodeTok
       if pre.length > n then "bad-op"
-      else match construct s.op with
-      | .error e => excName e      -- the constructor throws before anything is enumerated
-      | .ok () => "D " ++ hex64 (digestAll s alpha (n - pre.length) pre.reverse fnvInit)
+      else guarded s fun _ => "D " ++ hex64 (digestAll (runLine s c) alpha (n - pre.length) pre.reverse fnvInit)
     | _, _, _ => "bad-op"
   | _ => "bad-op"
 
